@@ -5,7 +5,7 @@
   on its own rollapp and on the others.
 -/
 import DymVerif.Lemmas.CoreLevInv
-namespace DymVerif.Core
+namespace DymVerif.Core.LevNs
 
 /-- the liveness view of a rollapp record -/
 def liv (r : Rollapp) : Nat × Nat × Option Addr := (r.evH, r.cdStart, r.proposer)
@@ -395,4 +395,4 @@ theorem Uniq.frame {s s' : St} {a : Addr} {ra : Nat} (h : Uniq s a ra) (f : LFra
       rw [← this]; exact hp
     exact h id r0 hg0 hp0
 
-end DymVerif.Core
+end DymVerif.Core.LevNs
